@@ -8,6 +8,8 @@
 (*                     shred r (0..63) of the signed slice u                *)
 (*   Deliver(s, u, lo, hi, via)  the calls for real shreds lo..hi, in order *)
 (*   Own(s, u)         add_own_slice (leader fast path)                     *)
+(*   Repair(s, p, u, lo, hi)  add_shred_from_repair into the spot p filed    *)
+(*                     under the repaired block's hash; Resolve = getters    *)
 (*                                                                         *)
 (* each returning the new store, the return value(s) and the SEQUENCE of    *)
 (* BlockstoreEvents sent to Votor.  The operators follow the code's order   *)
@@ -111,13 +113,12 @@ TrySlice(s, u) ==
 
 \* consistency of a shred with a known last slice
 Consistent(u, l) == (u.idx < l /\ ~u.last) \/ (u.idx = l /\ u.last)
-\* INTENDED (not coded): a last marker contradicts shreds already accepted for later slices
+\* a last marker contradicts shreds already accepted for later slices (finding fixed by 9934741)
 LaterKnown(s, i) == \E j \in SliceIdx : j > i /\ s.cache[j] # NoC
 
-(* add_shred_from_dissemination: one real shred r of the signed slice u *)
-One(s, u, r) ==
-  IF s.bad THEN Res(s, "invalid", <<>>)                       \* refused, nothing announced again
-  ELSE IF s.cache[u.idx] # NoC /\ s.cache[u.idx] # Commit(u) THEN Flag(s, "equiv", "conflict")
+(* BlockData::add_shred: one real shred r of the signed slice u into one spot (dissemination or repair) *)
+Core(s, u, r) ==
+  IF s.cache[u.idx] # NoC /\ s.cache[u.idx] # Commit(u) THEN Flag(s, "equiv", "conflict")
   ELSE
     LET s1 == [s EXCEPT !.cache[u.idx] = Commit(u)] IN
     IF s1.last = -1 /\ u.last /\ LaterKnown(s1, u.idx) THEN Flag(s1, "equiv", "late_marker")
@@ -129,6 +130,9 @@ One(s, u, r) ==
         LET first == \A i \in SliceIdx : s2.held[i] = {}
             s3 == [s2 EXCEPT !.held[u.idx] = @ \cup {r}]
         IN IF first THEN Res(s3, "none", <<"FirstShred">>) ELSE TrySlice(s3, u)
+
+(* add_shred_from_dissemination: a flagged slot refuses, nothing is announced again *)
+One(s, u, r) == IF s.bad THEN Res(s, "invalid", <<>>) ELSE Core(s, u, r)
 
 (* consensus.rs, handle_disseminator_shred: a shred is validated against the cached commitment of its  *)
 (* slice (ValidatedShred::try_new) before it reaches the store.  A validly signed shred carrying ANOTHER *)
@@ -164,9 +168,42 @@ Own(s, u) ==
       blk |-> IF b.ret = "block" THEN b.s.done ELSE NoB, why |-> b.why]
 
 ---------------------------------------------------------------------------
-(* getters (Blockstore trait), for the disseminated block *)
-GetBlock(s) == s.done
-GetShred(s, i, r) == IF s.done.ok /\ i \in SliceIdx /\ r \in s.held[i] THEN <<s.cache[i], r>> ELSE NoC
-GetSliceRoot(s, i) == IF s.done.ok /\ i \in SliceIdx /\ s.held[i] # {} THEN CRoot(s.cache[i]) ELSE NoC
-HasProof(s, i) == s.done.ok /\ i \in 0..s.last
+(* add_shred_from_repair(hash, shred): the same BlockData logic on the spot `p` filed under the block hash *)
+(* the repair asked for.  The spot has its own first shred and its own completion: FirstShred and Block     *)
+(* are announced for it whatever the dissemination spot `s` holds or has announced; the misbehaviour flag  *)
+(* of the slot is not consulted on entry, but an Equivocation / InvalidShred error sets it (InvalidBlock    *)
+(* the first time).                                                                                        *)
+RepairOne(s, p, u, r) ==
+  LET o == Core(p, u, r) IN
+  [s |-> IF o.s.bad THEN [s EXCEPT !.bad = TRUE] ELSE s,
+   p |-> [o.s EXCEPT !.bad = FALSE],
+   ret |-> o.ret,
+   evs |-> IF o.s.bad /\ s.bad THEN <<>> ELSE o.evs,      \* a flagging step announces nothing else
+   why |-> o.why]
+
+RECURSIVE RFold(_, _, _, _, _, _)
+RFold(s, p, u, r, hi, acc) ==
+  IF r > hi THEN [s |-> s, p |-> p, rets |-> acc.rets, evs |-> acc.evs, blk |-> acc.blk, why |-> acc.why]
+  ELSE LET o == RepairOne(s, p, u, r) IN
+       RFold(o.s, o.p, u, r + 1, hi,
+             [rets |-> Append(acc.rets, o.ret), evs |-> acc.evs \o o.evs,
+              blk |-> IF o.ret = "block" THEN o.p.done ELSE acc.blk,
+              why |-> IF acc.why = "" THEN o.why ELSE acc.why])
+Repair(s, p, u, lo, hi) == RFold(s, p, u, lo, hi, [rets |-> <<>>, evs |-> <<>>, blk |-> NoB, why |-> ""])
+
+---------------------------------------------------------------------------
+(* getters (Blockstore trait) for the block id (slot, h): BlockstoreImpl::get_block_data resolves to the   *)
+(* dissemination spot `s` if it COMPLETED a block with that hash, else to the repair spot `p` filed under h *)
+(* (complete or not; EmptyStore if there is none)                                                          *)
+Resolve(s, p, h) == IF s.done.ok /\ s.done.hash = h THEN s ELSE p
+GetBlock(d) == d.done                                                         \* get_block
+GetLast(d) == d.last                                                          \* get_last_slice_index
+GetShred(d, i, r) == IF i \in SliceIdx /\ r \in d.held[i] THEN <<d.cache[i], r>> ELSE NoC          \* get_shred
+GetSliceRoot(d, i) == IF i \in SliceIdx /\ d.held[i] # {} THEN CRoot(d.cache[i]) ELSE NoC          \* get_slice_root
+HasProof(d, i) == d.done.ok /\ i \in 0..d.last                               \* create_double_merkle_proof
+\* everything of a completed block is served
+ServesBlock(d) == /\ d.done.ok
+                  /\ \A i \in 0..d.last : /\ HasProof(d, i)
+                                          /\ GetSliceRoot(d, i) = d.done.hash[i + 1]
+                                          /\ \A r \in Shreds : GetShred(d, i, r) = <<d.cache[i], r>>
 =============================================================================
